@@ -191,6 +191,15 @@ func (m *CLIManager) Install(ctx context.Context, installOpts CLIInstallOptions)
 			}
 		}
 	}
+	pluginDirPath, err := m.pluginFS.SysPath(pluginName)
+	if err != nil {
+		return nil, nil, fmt.Errorf("failed to get the system path of plugin %s: %w", pluginName, err)
+	}
+	// the clean up below removes the plugin directory: a source inside it would
+	// be removed before it is copied, leaving no plugin at all
+	if isPathWithin(installOpts.PluginPath, pluginDirPath) {
+		return nil, nil, fmt.Errorf("plugin source %s is inside the installation directory of plugin %s", installOpts.PluginPath, pluginName)
+	}
 	// clean up before installation, this guarantees idempotent for install
 	if err := m.Uninstall(ctx, pluginName); err != nil {
 		if !errors.Is(err, os.ErrNotExist) {
@@ -198,10 +207,6 @@ func (m *CLIManager) Install(ctx context.Context, installOpts CLIInstallOptions)
 		}
 	}
 	// core process
-	pluginDirPath, err := m.pluginFS.SysPath(pluginName)
-	if err != nil {
-		return nil, nil, fmt.Errorf("failed to get the system path of plugin %s: %w", pluginName, err)
-	}
 	if installFromNonDir {
 		if err := file.CopyToDir(pluginExecutableFile, pluginDirPath); err != nil {
 			return nil, nil, fmt.Errorf("failed to copy plugin executable file from %s to %s: %w", pluginExecutableFile, pluginDirPath, err)
@@ -228,6 +233,25 @@ func (m *CLIManager) Uninstall(ctx context.Context, name string) error {
 		return err
 	}
 	return os.RemoveAll(pluginDirPath)
+}
+
+// isPathWithin reports whether path is dir itself or lies below it, after
+// resolving symbolic links where possible.
+func isPathWithin(path, dir string) bool {
+	resolve := func(p string) string {
+		if abs, err := filepath.Abs(p); err == nil {
+			p = abs
+		}
+		if real, err := filepath.EvalSymlinks(p); err == nil {
+			p = real
+		}
+		return p
+	}
+	rel, err := filepath.Rel(resolve(dir), resolve(path))
+	if err != nil {
+		return false
+	}
+	return rel == "." || (rel != ".." && !strings.HasPrefix(rel, ".."+string(filepath.Separator)))
 }
 
 // validatePluginName checks that name is a single path element, so that the
